@@ -692,3 +692,160 @@ class CallGraph:
             out.append(cur)
             cur = pred.get(cur)
         return list(reversed(out))
+
+
+# ---------------------------------------------------------------------------
+# alpha-normalised source text (robust to renaming of parameters and locals)
+
+
+class _Renamer(ast.NodeTransformer):
+    def __init__(self, mapping):
+        self.mapping = mapping
+
+    def visit_Name(self, node):
+        if node.id in self.mapping:
+            return ast.copy_location(ast.Name(id=self.mapping[node.id], ctx=node.ctx), node)
+        return node
+
+    def visit_arg(self, node):
+        if node.arg in self.mapping:
+            node = ast.copy_location(ast.arg(arg=self.mapping[node.arg], annotation=node.annotation), node)
+        return node
+
+
+def local_names(fn) -> Dict[str, str]:
+    """parameters (except self/cls) and locally bound names of fn, in order of first binding -> _p0.. / _v0.."""
+    mapping: Dict[str, str] = {}
+    a = fn.args
+    i = 0
+    for arg in a.posonlyargs + a.args + a.kwonlyargs + ([a.vararg] if a.vararg else []) + ([a.kwarg] if a.kwarg else []):
+        if arg.arg in ("self", "cls"):
+            continue
+        mapping[arg.arg] = f"_p{i}"
+        i += 1
+    j = 0
+
+    def bind(t):
+        nonlocal j
+        if isinstance(t, ast.Name):
+            if t.id not in mapping:
+                mapping[t.id] = f"_v{j}"
+                j += 1
+        elif isinstance(t, (ast.Tuple, ast.List)):
+            for e in t.elts:
+                bind(e)
+        elif isinstance(t, ast.Starred):
+            bind(t.value)
+
+    nodes_ = sorted((n for n in ast.walk(fn) if hasattr(n, "lineno")), key=lambda n: (n.lineno, n.col_offset))
+    for n in nodes_:
+        if isinstance(n, ast.Assign):
+            for t in n.targets:
+                bind(t)
+        elif isinstance(n, (ast.AnnAssign, ast.AugAssign)):
+            bind(n.target)
+        elif isinstance(n, (ast.For, ast.AsyncFor, ast.comprehension)):
+            bind(n.target)
+        elif isinstance(n, ast.NamedExpr):
+            bind(n.target)
+        elif isinstance(n, (ast.With, ast.AsyncWith)):
+            for it in n.items:
+                if it.optional_vars is not None:
+                    bind(it.optional_vars)
+    return mapping
+
+
+class Alpha:
+    """Alpha(fn).u(node) = unparse(node) with fn's parameters and locals renamed canonically;
+    Alpha(fn).name(x) = canonical name of local x."""
+
+    def __init__(self, fn):
+        self.fn = fn
+        self.mapping = local_names(fn)
+        self._r = _Renamer(self.mapping)
+
+    def u(self, node) -> str:
+        import copy
+        return ast.unparse(self._r.visit(copy.deepcopy(node)))
+
+    def name(self, x: str) -> str:
+        return self.mapping.get(x, x)
+
+    def inv(self, canon: str):
+        for k, v in self.mapping.items():
+            if v == canon:
+                return k
+        return None
+
+
+# ---------------------------------------------------------------------------
+# pattern matching with metavariables (robust to renaming of locals)
+
+import re as _re
+
+_META = _re.compile(r"^_[A-Z][A-Z0-9]*_$")
+
+
+def pmatch(pattern: str, node, binds: Optional[Dict[str, str]] = None) -> Optional[Dict[str, str]]:
+    """Match `node` against the expression `pattern`. Names of the form _X_ in the pattern are
+    metavariables: each binds to one identifier (consistently); a metavariable named _ANY..._ matches
+    any sub-expression. Pre-bound metavariables can be given in `binds`. Returns the bindings or None."""
+    pat = ast.parse(pattern, mode="eval").body
+    b = dict(binds or {})
+    return b if _pm(pat, node, b) else None
+
+
+def _pm(p, n, b) -> bool:
+    if isinstance(p, ast.Name) and _META.match(p.id):
+        if p.id.startswith("_ANY"):
+            key = p.id
+            src = ast.unparse(n) if isinstance(n, ast.AST) else repr(n)
+            if key in b:
+                return b[key] == src
+            b[key] = src
+            return True
+        if not isinstance(n, ast.Name):
+            return False
+        if p.id in b:
+            return b[p.id] == n.id
+        b[p.id] = n.id
+        return True
+    if type(p) is not type(n):
+        return False
+    if isinstance(p, ast.Constant):
+        return p.value == n.value and type(p.value) is type(n.value)
+    for f in p._fields:
+        if f in ("ctx", "type_comment", "kind"):
+            continue
+        pv, nv = getattr(p, f, None), getattr(n, f, None)
+        if isinstance(pv, list):
+            if not isinstance(nv, list) or len(pv) != len(nv):
+                return False
+            for x, y in zip(pv, nv):
+                if isinstance(x, ast.AST):
+                    if not _pm(x, y, b):
+                        return False
+                elif x != y:
+                    return False
+        elif isinstance(pv, ast.AST):
+            if not isinstance(nv, ast.AST) or not _pm(pv, nv, b):
+                return False
+        else:
+            if isinstance(p, ast.arg) and f == "arg" and isinstance(pv, str) and _META.match(pv):
+                if pv in b and b[pv] != nv:
+                    return False
+                b[pv] = nv
+                continue
+            if pv != nv:
+                return False
+    return True
+
+
+def find_match(pattern: str, root, binds=None):
+    """first sub-node of root matching pattern -> (node, binds) or (None, None)"""
+    for n in ast.walk(root):
+        if isinstance(n, ast.expr):
+            r = pmatch(pattern, n, binds)
+            if r is not None:
+                return n, r
+    return None, None
